@@ -89,6 +89,10 @@ def term_order_problems(t, sort_param):
         problems.append('completion-ordered results reach the returned list without a sort on the submission index')
 
     walk(t, [])
+    # the index that is sorted on must be the submission index: enumerate(<completion-ordered iterable>) counts completions
+    for x in dag_nodes(t):
+        if x[0] == 'call' and x[1] in ('enumerate', 'builtins.enumerate') and x[2] and any(y[0] == 'call' and isinstance(y[1], str) and y[1].endswith('as_completed') for y in dag_nodes(x[2][0])):
+            problems.append('results are numbered while iterating in completion order (enumerate over as_completed): the index sorted on is the completion rank, not the position of the input')
     return sorted(set(problems)), n_src[0]
 
 
